@@ -195,7 +195,16 @@ def run(ctx):
     else:
         ctx.violation("Z4", scan, "yield-after-loop", "Lexer.scan yields outside the scanning loop", node=scan.node)
 
-    # ---- Z5 ----------------------------------------------------------------------
+    z6(ctx, R)
+    x2(ctx, R, rule="X2")
+    # an error is reported at the token that causes it only if the check runs while that token is the current one: the extension gates
+    # (E2-E4 of C07) must sit at the lookup / at the tag, not at a later token
+    from .c07 import gates
+    gates(ctx, R)
+
+
+def z6(ctx, R):
+    """parse() hands the caller's text to the lexer unchanged (shared with C03: the values in the tree are slices of that text)."""
     # ---- Z6 ----------------------------------------------------------------------
     ctx.rule("Z6", "positions are positions in the caller's text: parse() hands its input to the lexer unchanged (str -> UTF-8 bytes only)")
     pf = R.parse
@@ -221,8 +230,3 @@ def run(ctx):
                       witness="a script starting with blank lines reports its errors on too small a line number")
     else:
         ctx.holds("Z6", "%s: the input is only encoded (str -> bytes) before it is scanned" % pf.qualname)
-    x2(ctx, R, rule="X2")
-    # an error is reported at the token that causes it only if the check runs while that token is the current one: the extension gates
-    # (E2-E4 of C07) must sit at the lookup / at the tag, not at a later token
-    from .c07 import gates
-    gates(ctx, R)
